@@ -119,8 +119,10 @@ theorem row_kept_iff_spelled (ifNone : Bool) (ds : Table) (hasData : Bool) (toda
   have hnone : (ds.jcellAt "data" i).isNone = false ↔ ds.jcellAt "data" i ≠ .none := by
     cases ds.jcellAt "data" i <;> simp [Cell.isNone]
   simp only [expiryCovered, Bool.or_eq_true, beq_iff_eq, Option.isSome_iff_exists] at hc
-  rcases hc with h | ⟨us, h⟩
+  rcases hc with (h | h) | ⟨us, h⟩
   · simp [rowRuns, h, runExpiry, expiryDate]
+  · have hd : expiryDate (.str "NaT") = none := by decide
+    simp [rowRuns, h, runExpiry, hd]
   · simp only [rowRuns, runExpiry_of_date today _ us h, h, Bool.or_eq_false_iff, Bool.not_eq_false',
       decide_eq_false_iff_not, Int.not_le, Option.some.injEq, exists_eq_left', Bool.and_eq_false_imp,
       hnone, and_assoc]
@@ -653,6 +655,61 @@ theorem perdictable_end_to_end (f : List Cell → Val) (params on : List String)
         rw [this] at h
         simp only [Option.some.injEq, Except.ok.injEq] at h
         exact .inr ⟨hn, h.symm⟩
+
+/-- the statement's "a previously computed value is supplied with an expiry date in the past", read off the joined table WITHOUT
+`runExpiry` / `rowRuns`: a `data` column exists, the expiry cell spells an instant (`expiryDate`, the C03 model of `dt`) strictly
+before today and, with `if_none = True`, the previous value is not `None` -/
+def KeptSpec (ifNone : Bool) (ds : Table) (today : Int) (i : Nat) : Prop :=
+  ds.cols.contains "data" = true ∧ (ifNone = true → ds.jcellAt "data" i ≠ .none) ∧
+    ∃ us, expiryDate (ds.jcellAt "expiry" i) = some us ∧ us < today
+
+/-- **`perdictable_end_to_end` with the expiry clause stated through `KeptSpec`** (review v2, C20 model fidelity 3): `runExpiry`
+answers "recompute" for every cell `expiryDate` does not read (a float, a bool, `'2000'`, `'-1d'` - the code keeps some of
+those), so `perdictable_end_to_end`, which speaks through `rowRuns`, says nothing reliable about such calls; the driver refuses
+them (`bad-op`).  HERE the restriction is a hypothesis: every expiry cell of the joined table is covered (`expiryCovered`:
+`None`, the missing date, or a spelling of an absolute instant).  Then the rows that are NOT computed are exactly the `KeptSpec`
+rows - they carry the previous value - every other row carries `f` of its values and is logged exactly once, in row order. -/
+theorem perdictable_end_to_end_covered (f : List Cell → Val) (params on : List String)
+    (defaults : List (String × Cell)) (inputs : List (String × PInput)) (expiry : PInput)
+    (today : Int) (res : PResult × List (List Cell))
+    (hon : on ≠ []) (hnames : ((inputs ++ [("expiry", expiry)]).map (·.1)).Nodup)
+    (hoff : ∀ kv ∈ inputs ++ [("expiry", expiry)], kv.1 ∉ on)
+    (htab : ∀ kv ∈ tableInputs (inputs ++ [("expiry", expiry)]),
+      kv.2.WF ∧ kv.2.cols.Nodup ∧ ∀ c ∈ on, c ∈ kv.2.cols)
+    (hany : tableInputs (inputs ++ [("expiry", expiry)]) ≠ [])
+    (ifNone : Bool)
+    (hcov : ∀ ds, pdJoin (inputs ++ [("expiry", expiry)]) on
+        (defaults ++ (if (defaults.map (·.1)).contains "data" then [] else [("data", Cell.none)]) ++
+          (if (defaults.map (·.1)).contains "expiry" then [] else [("expiry", Cell.none)])) = some (.ok ds) →
+      ∀ i, i < ds.nrows → expiryCovered (ds.jcellAt "expiry" i) = true)
+    (h : perdictable f params on defaults inputs expiry today ifNone = some (.ok res)) :
+    ∃ ds : Table,
+      JoinSpec (inputs ++ [("expiry", expiry)]) on
+        (defaults ++ (if (defaults.map (·.1)).contains "data" then [] else [("data", Cell.none)]) ++
+          (if (defaults.map (·.1)).contains "expiry" then [] else [("expiry", Cell.none)])) ds ∧
+      ((ds.nrows = 0 ∧ res = (.noRows ((inputs.find? (·.1 == "data")).map (·.2)), [])) ∨
+       (ds.nrows ≠ 0 ∧ ∃ runs : Nat → Bool,
+        (∀ i, i < ds.nrows → (runs i = false ↔ KeptSpec ifNone ds today i)) ∧
+        res = (.table (Table.toV (on.map fun k => (k, (ds.col? k).getD [])) ++
+            [("data", (List.range ds.nrows).map fun i =>
+              if runs i then f (rowArgs ds params i) else .cell (ds.jcellAt "data" i))]),
+          ((List.range ds.nrows).filter runs).map (rowArgs ds params)))) := by
+  obtain ⟨ds, hj, hs, hr⟩ := perdictable_end_to_end f params on defaults inputs expiry today res hon hnames hoff htab hany
+    ifNone h
+  refine ⟨ds, hs, ?_⟩
+  rcases hr with hr | ⟨hn, hr⟩
+  · exact .inl hr
+  · refine .inr ⟨hn, rowRuns ifNone ds (ds.cols.contains "data") today, ?_, hr⟩
+    intro i hi
+    exact row_kept_iff_spelled ifNone ds (ds.cols.contains "data") today i (hcov ds hj i hi)
+
+/-- `KeptSpec` on concrete rows: a past date string protects, `None`, the missing date and a future date do not -/
+example : KeptSpec false [("k", [.int 1]), ("data", [.str "old"]), ("expiry", [.str "2000-01-01"])] (739000 * 86400000000) 0 :=
+  ⟨by decide, by simp, 730119 * 86400000000, by decide, by decide⟩
+example : ¬ KeptSpec false [("k", [.int 1]), ("data", [.str "old"]), ("expiry", [.str "NaT"])] (739000 * 86400000000) 0 := by
+  rintro ⟨_, _, us, hus, _⟩
+  have : expiryDate (Table.jcellAt [("k", [.int 1]), ("data", [.str "old"]), ("expiry", [.str "NaT"])] "expiry" 0) = none := by decide
+  rw [this] at hus; cases hus
 
 /-- **the lifted call returns** (no error, no uncovered step) for every call as in
 `perdictable_end_to_end` whose tables have distinct column names and a selectable value column — so
